@@ -1,5 +1,6 @@
 import MalVerif.Py.TieLegacyOld
 import MalVerif.Py.TieLegacyScad
+import MalVerif.Py.TieLegacyScadAgree
 import MalVerif.Props.C18
 /-!
 # C18 for the *translated* legacy loaders
@@ -31,6 +32,20 @@ or flat), `Legacy.emitOld` the typed 0.0.39 document for a native document (`Mod
   `add_asset`; `old_loader_swapped_fields_counterexample` shows that `notSwapped` is needed (the Python accepts
   what `loadOld` rejects); `old_loader_unknown_entry_point_unmodelled` marks the one place where a result of the
   translation says nothing about the Python (`(None, steps)` tuples).
+* securiCAD: `scad_loader_refines` / `scad_loader_error_class` (translated `load_model_from_scad_archive` = `Legacy.loadScad`,
+  outcome by outcome, with the exception class); **`scad_loader_agrees_with_native`** (the property): for every native
+  model state `s` the archive can express, the translated loader on `emitScad s` and the native loader on `toDoc s` both
+  return a model, with the same assets (`scad_loader_assets_agree`), the same pairwise links (`scad_loader_links_agree`)
+  and the same attacker entry points (`scad_loader_entry_points_agree`); `…_reachable` after any history.  The
+  agreement lemmas of the hand model are re-proved from any start state without live objects
+  (`Py/TieLegacyScadEmit.lean`), which is how the start state `abs (emptyModel path)` of the tie meets the `{}` of
+  `Props/C18.lean`; observations are compared through the views (`ScadAgrees`, `Py/TieLegacyScadAgree.lean`).
+* The exception CLASS: `old_loader_error_class` (0.0.39: the class map of the `model` domain or one of eight listed,
+  witnessed pairs — `old_error_classes`, `old_loader_class_disagreements`) and `scad_loader_error_class` (securiCAD: the
+  class map, `return None` = `lookupError`, and the single pair `unmodelled` / `validation`).
+* The image conditions: `old_wf_of_saved_model`, `scad_objWf_of_saved_model` (`OldWf`, `DefsOkOf`, `NoExtras`, `ObjWf` hold
+  for everything written for a coherent model), `old_loader_agrees_on_saved_model` (0.0.39 with no document hypothesis
+  left), `scad_emit_empty_defense_counterexample` (`NoEmptyDefName` is needed).
 * Start state: the hand-written loaders are run from the state the empty heap stands for
   (`loadOldFrom … (abs (emptyModel name))`, `fromDocFrom …`), which differs from `({} : MS.St)` only in store cells
   that are never allocated (`init_lists`); `loadOldFrom L ok {} = loadOld L ok`, `fromDocFrom L ok {} = fromDoc L ok` by `rfl`.
@@ -55,7 +70,7 @@ theorem init_lists (name : String) :
     (abs (emptyModel name)).assetNames = [] ∧ (abs (emptyModel name)).typeToAssoc = [] ∧
     (abs (emptyModel name)).nextId = 0 ∧ (abs (emptyModel name)).afresh = 0 ∧ (abs (emptyModel name)).lfresh = 0 ∧
     (abs (emptyModel name)).tfresh = 0 ∧
-    (∀ L ok d, loadOldFrom L ok {} d = loadOld L ok d) ∧ (∀ L ok d, fromDocFrom L ok {} d = fromDoc L ok d) :=
+    (∀ L ok d, loadOldFrom L ok {} d = loadOld L ok d) ∧ (∀ L ok d, PyLeg.fromDocFrom L ok {} d = fromDoc L ok d) :=
   ⟨rfl, rfl, rfl, rfl, rfl, rfl, rfl, rfl, rfl, rfl, fun _ _ _ => rfl, fun _ _ _ => rfl⟩
 
 /-- **C18, 0.0.39 layout.**  For a native document `d` without extras: the translated 0.0.39 loader, on the 0.0.39
@@ -65,7 +80,7 @@ theorem old_loader_agrees_with_native {env : ModelEnv} (hE : EqId env) (files : 
     (hwf : OldWf fac.L nested (emitOld d)) (hdefs : DefsOkOf fac (emitOld d) defsOk)
     (hfuel : d.assets.length ≤ env.whileFuel) :
     okSt (updater_process_model files env (encOld nested name (emitOld d)) fac) =
-      optSt (fromDocFrom fac.L defsOk (abs (emptyModel name)) d) := by
+      optSt (PyLeg.fromDocFrom fac.L defsOk (abs (emptyModel name)) d) := by
   rw [← loadOldFrom_emitOld fac.L defsOk _ d hx]
   exact old_loader_refines hE files fac hL defsOk nested name (emitOld d) hwf hdefs
     (by rw [emitOld_eq]; simpa using hfuel)
@@ -78,15 +93,15 @@ theorem old_loader_same_model {env : ModelEnv} (hE : EqId env) (files : Files) (
     (hwf : OldWf fac.L nested (emitOld d)) (hdefs : DefsOkOf fac (emitOld d) defsOk)
     (hfuel : d.assets.length ≤ env.whileFuel) :
     (∀ s', updater_process_model files env (encOld nested name (emitOld d)) fac = .ok s' →
-      ∃ s0, fromDocFrom fac.L defsOk (abs (emptyModel name)) d = .ok s0 ∧ SameModel fac.L (abs s') s0) ∧
-    (∀ s0, fromDocFrom fac.L defsOk (abs (emptyModel name)) d = .ok s0 →
+      ∃ s0, PyLeg.fromDocFrom fac.L defsOk (abs (emptyModel name)) d = .ok s0 ∧ SameModel fac.L (abs s') s0) ∧
+    (∀ s0, PyLeg.fromDocFrom fac.L defsOk (abs (emptyModel name)) d = .ok s0 →
       ∃ s', updater_process_model files env (encOld nested name (emitOld d)) fac = .ok s' ∧ SameModel fac.L (abs s') s0) ∧
     ((∃ e, updater_process_model files env (encOld nested name (emitOld d)) fac = .error e) ↔
-      (∃ e, fromDocFrom fac.L defsOk (abs (emptyModel name)) d = .error e)) := by
+      (∃ e, PyLeg.fromDocFrom fac.L defsOk (abs (emptyModel name)) d = .error e)) := by
   have h := old_loader_agrees_with_native hE files fac hL defsOk nested name d hx hwf hdefs hfuel
   cases h1 : updater_process_model files env (encOld nested name (emitOld d)) fac with
   | ok s' =>
-    cases h2 : fromDocFrom fac.L defsOk (abs (emptyModel name)) d with
+    cases h2 : PyLeg.fromDocFrom fac.L defsOk (abs (emptyModel name)) d with
     | ok s0 =>
       rw [h1, h2] at h
       have e : abs s' = s0 := by injection h
@@ -97,7 +112,7 @@ theorem old_loader_same_model {env : ModelEnv} (hE : EqId env) (files : Files) (
       · constructor <;> (rintro ⟨e, he⟩; cases he)
     | error e0 => rw [h1, h2] at h; cases h
   | error e =>
-    cases h2 : fromDocFrom fac.L defsOk (abs (emptyModel name)) d with
+    cases h2 : PyLeg.fromDocFrom fac.L defsOk (abs (emptyModel name)) d with
     | ok s0 => rw [h1, h2] at h; cases h
     | error e0 =>
       refine ⟨fun s'' hs => (by cases hs), fun s0 hs0 => (by cases hs0), ?_⟩
@@ -218,6 +233,74 @@ theorem old_loader_unknown_entry_point_unmodelled :
   exact ⟨raisesL_eq (by decide +kernel), rejects_eq (by decide +kernel)⟩
 
 
+/-! ### 0.0.39: the exception class -/
+
+/-- **the translated 0.0.39 loader and `Legacy.loadOld`, with the exception class.**  The translated `_process_model` returns a
+model ⇒ `loadOld` computes its abstraction; it raises `e` ⇒ `loadOld` rejects with an error `er` such that `OldErrAgree e er`:
+the class `e` stands for (`oldErrAbs`, the class map of the `model` domain: `ValueError ↦ valueError`, `LookupError ↦
+lookupError`, pjs `ValidationError ↦ validation`, `DuplicateModelAssociationError`, `ModelAssociationException`; every
+class the hand model does not have — `AttributeError`, `KeyError`, … — ↦ `validation`) or one of the EIGHT listed pairs
+(`old_error_classes`), each of which is realised (`old_loader_class_disagreements`). -/
+theorem old_loader_error_class {env : ModelEnv} (hE : EqId env) (files : Files) (fac : Factory) (hL : FieldsDistinct fac.L)
+    (defsOk : Key → Bool) (nested : Bool) (name : String) (d : OldDoc) (hwf : OldWf fac.L nested d)
+    (hdefs : DefsOkOf fac d defsOk) (hfuel : d.assets.length ≤ env.whileFuel) :
+    match updater_process_model files env (encOld nested name d) fac with
+    | .ok s' => loadOldFrom fac.L defsOk (abs (emptyModel name)) d = .ok (abs s')
+    | .error e => ∃ er, loadOldFrom fac.L defsOk (abs (emptyModel name)) d = .error er ∧ OldErrAgree e er :=
+  process_model_tie_class hE files fac hL defsOk nested name d hwf hdefs hfuel
+
+/-- what `OldErrAgree` allows beyond the class map: exactly eight pairs, none of which is an agreement of classes -/
+theorem old_error_classes (e : LErr) (er : MS.Err) :
+    (OldErrAgree e er ↔ oldErrAbs e = some er ∨
+      (e, er) ∈ [(.unmodelled, .validation), (.unmodelled, .lookupError), (.unmodelled, .valueError),
+                 (.py .attributeError, .lookupError), (.py .attributeError, .valueError), (.validation, .valueError),
+                 (.py .valueError, .validation), (.py .valueError, .lookupError)]) ∧
+    (∀ p ∈ [((.unmodelled : LErr), (.validation : MS.Err)), (.unmodelled, .lookupError), (.unmodelled, .valueError),
+           (.py .attributeError, .lookupError), (.py .attributeError, .valueError), (.validation, .valueError),
+           (.py .valueError, .validation), (.py .valueError, .lookupError)], oldErrAbs p.1 ≠ some p.2) :=
+  ⟨oldErrAgree_iff e er, oldErr_disagreements_genuine⟩
+
+/-- **every one of the eight pairs occurs**, on a well-formed document (inside the hypotheses of `old_loader_error_class`),
+on the sample language: single faults — an unknown asset class (`AttributeError` / `lookupError`), a member id that is not a
+number (`ValueError` / `validation`), an entry-point id that is not a number (`ValueError` / `lookupError`); the Python
+does not raise — a `defenses` key that is not a defense (`unmodelled` / `validation`), an entry point for an unknown asset
+(`unmodelled` / `lookupError`); two faults in one entry, the hand model converts the key first — unknown class, bad value,
+unknown defense, each under a key that is not a number (… / `valueError`).  `k` is any key with `k.toInt? = none`. -/
+theorem old_loader_class_disagreements (k : Key) (hk : k.toInt? = none) :
+    (∃ d ok e er, (OldWf clsFac.L true d ∧ DefsOkOf clsFac d ok) ∧
+      updater_process_model clsFiles clsEnv (encOld true "m" d) clsFac = .error e ∧
+      loadOld Legacy.Sample.lang ok d = .error er ∧ e = .py .attributeError ∧ er = .lookupError) ∧
+    (∃ d ok e er, (OldWf clsFac.L true d ∧ DefsOkOf clsFac d ok) ∧
+      updater_process_model clsFiles clsEnv (encOld true "m" d) clsFac = .error e ∧
+      loadOld Legacy.Sample.lang ok d = .error er ∧ e = .py .valueError ∧ er = .validation) ∧
+    (∃ d ok e er, (OldWf clsFac.L true d ∧ DefsOkOf clsFac d ok) ∧
+      updater_process_model clsFiles clsEnv (encOld true "m" d) clsFac = .error e ∧
+      loadOld Legacy.Sample.lang ok d = .error er ∧ e = .py .valueError ∧ er = .lookupError) ∧
+    (∃ d ok e er, (OldWf clsFac.L true d ∧ DefsOkOf clsFac d ok) ∧
+      updater_process_model clsFiles clsEnv (encOld true "m" d) clsFac = .error e ∧
+      loadOld Legacy.Sample.lang ok d = .error er ∧ e = .unmodelled ∧ er = .validation) ∧
+    (∃ d ok e er, (OldWf clsFac.L true d ∧ DefsOkOf clsFac d ok) ∧
+      updater_process_model clsFiles clsEnv (encOld true "m" d) clsFac = .error e ∧
+      loadOld Legacy.Sample.lang ok d = .error er ∧ e = .unmodelled ∧ er = .lookupError) ∧
+    (∃ d ok e er, (OldWf clsFac.L true d ∧ DefsOkOf clsFac d ok) ∧
+      updater_process_model clsFiles clsEnv (encOld true "m" d) clsFac = .error e ∧
+      loadOld Legacy.Sample.lang ok d = .error er ∧ e = .py .attributeError ∧ er = .valueError) ∧
+    (∃ d ok e er, (OldWf clsFac.L true d ∧ DefsOkOf clsFac d ok) ∧
+      updater_process_model clsFiles clsEnv (encOld true "m" d) clsFac = .error e ∧
+      loadOld Legacy.Sample.lang ok d = .error er ∧ e = .validation ∧ er = .valueError) ∧
+    (∃ d ok e er, (OldWf clsFac.L true d ∧ DefsOkOf clsFac d ok) ∧
+      updater_process_model clsFiles clsEnv (encOld true "m" d) clsFac = .error e ∧
+      loadOld Legacy.Sample.lang ok d = .error er ∧ e = .unmodelled ∧ er = .valueError) := by
+  refine ⟨?_, ?_, ?_, ?_, ?_, ?_, ?_, ?_⟩
+  · obtain ⟨a, b, c⟩ := old_class_unknown_asset_class; exact ⟨_, _, _, _, a, b, c, rfl, rfl⟩
+  · obtain ⟨a, b, c⟩ := old_class_member_not_int k hk; exact ⟨_, _, _, _, a, b, c, rfl, rfl⟩
+  · obtain ⟨a, b, c⟩ := old_class_entry_point_not_int k hk; exact ⟨_, _, _, _, a, b, c, rfl, rfl⟩
+  · obtain ⟨a, b, c⟩ := old_class_unknown_defense; exact ⟨_, _, _, _, a, b, c, rfl, rfl⟩
+  · obtain ⟨a, b, c⟩ := old_class_unknown_entry_point; exact ⟨_, _, _, _, a, b, c, rfl, rfl⟩
+  · obtain ⟨a, b, c⟩ := old_class_unknown_asset_class_bad_key k hk; exact ⟨_, _, _, _, a, b, c, rfl, rfl⟩
+  · obtain ⟨a, b, c⟩ := old_class_bad_defense_value_bad_key k hk; exact ⟨_, _, _, _, a, b, c, rfl, rfl⟩
+  · obtain ⟨a, b, c⟩ := old_class_unknown_defense_bad_key k hk; exact ⟨_, _, _, _, a, b, c, rfl, rfl⟩
+
 /-! ### securiCAD -/
 
 /-- **the translated securiCAD loader is `Legacy.loadScad`.**  For a parsed archive `d` (`files.eom path`): the translated
@@ -284,5 +367,386 @@ example : loadsWithO (securicad_load_model_from_scad_archive demoScadFiles demoE
        ⟨"Peer", "peers", [5], "peerOf", [5], "{}"⟩]) &&
     decide ((abs s).attackers.map (attView (abs s)) = [⟨9, "Attacker:9", [(5, ["access", "connect"]), (0, ["access"])]⟩])) = true := by
   decide +kernel
+
+/-! ### securiCAD: the exception class -/
+
+/-- **the translated securiCAD loader and `Legacy.loadScad`, outcome by outcome.**  The translated loader returns a model
+⇒ `loadScad` computes its abstraction; it returns `None` ⇒ `loadScad` answers `lookupError` (unknown asset class, unknown
+object id on either side of an association); it raises `e` ⇒ `loadScad` rejects with the class `e` stands for
+(`ErrAgree`: `errAbsL e = some er` — `LookupError` ↦ `lookupError`, `ValueError` ↦ `valueError`, pjs `ValidationError` and
+the `IndexError` of `name[0]` ↦ `validation`, `DuplicateModelAssociationError` ↦ `duplicateAssociation`,
+`ModelAssociationException` ↦ `modelAssociation` — or, the ONE disagreement, `e = unmodelled ∧ er = validation`: an
+evidence attribute that is not a defense of the class, which python_jsonschema_objects accepts silently).  Since the
+three outcomes are exhaustive this is also the converse: `loadScad` accepts iff a model is returned.  `ObjWf` is asked
+only of the objects that are not attackers. -/
+theorem scad_loader_error_class (files : Files) {env : ModelEnv} (hE : EqId env) (fac : Factory) (lg : LangGraphView)
+    (nodes : List AssocDecl) (defsOk : Int → Bool) (path : String) (d : ScadDoc) (hF : FieldsDistinct fac.L)
+    (hd : ClassNamesDistinct fac.L) (hnodes : ∀ a ∈ nodes, a ∈ fac.L.assocs) (hlg : LgSpec fac.L nodes lg)
+    (hfile : files.eom path = .ok d) (hwf : ∀ o ∈ d.objects, o.metaConcept ≠ "Attacker" → ObjWf fac defsOk o)
+    (hfuel : d.objects.length ≤ env.whileFuel) :
+    match securicad_load_model_from_scad_archive files env path lg fac with
+    | .ok (some s') => loadScadFrom fac.L nodes defsOk (abs (emptyModel path)) d = .ok (abs s')
+    | .ok none => loadScadFrom fac.L nodes defsOk (abs (emptyModel path)) d = .error .lookupError
+    | .error e => ∃ er, loadScadFrom fac.L nodes defsOk (abs (emptyModel path)) d = .error er ∧ ErrAgree e er :=
+  scad_loader_sim_class files hE fac lg nodes defsOk path d hF hd hnodes hlg hfile hwf hfuel
+
+/-- the class table of `ErrAgree`, spelled out -/
+theorem scad_error_classes :
+    ErrAgree (.py .lookupError) .lookupError ∧ ErrAgree (.py .valueError) .valueError ∧
+    ErrAgree .validation .validation ∧ ErrAgree (.py .other) .validation ∧
+    ErrAgree (.py .duplicateModelAssociationError) .duplicateAssociation ∧
+    ErrAgree (.py .modelAssociationException) .modelAssociation ∧ ErrAgree .unmodelled .validation ∧
+    (∀ er, ErrAgree .unmodelled er → er = .validation) ∧ (∀ er, ¬ ErrAgree .typeError er) ∧
+    (∀ e er er', ErrAgree e er → ErrAgree e er' → er = er') := by
+  refine ⟨Or.inl rfl, Or.inl rfl, Or.inl rfl, Or.inl rfl, Or.inl rfl, Or.inl rfl, Or.inr ⟨rfl, rfl⟩, ?_, ?_, ?_⟩
+  · rintro er (h | ⟨_, h⟩)
+    · cases h
+    · exact h
+  · rintro er (h | ⟨h, _⟩) <;> cases h
+  · rintro e er er' (h | ⟨h1, h2⟩) (h' | ⟨h1', h2'⟩)
+    · rw [h] at h'; injection h'
+    · subst h1'; cases h
+    · subst h1; cases h'
+    · rw [h2, h2']
+
+/-! ### securiCAD: agreement with the native loader (the property) -/
+
+/-- the archive written for a coherent, valid native model `s` loads with the translated loader: a model is returned
+(not `None`, no exception), and it is coherent -/
+theorem scad_loader_loads (files : Files) {env : ModelEnv} (hE : EqId env) (fac : Factory) (lg : LangGraphView)
+    (nodes : List AssocDecl) (path : String) (s : MS.St)
+    (hF : FieldsDistinct fac.L) (hd : ClassNamesDistinct fac.L) (hnodes : ∀ a ∈ nodes, a ∈ fac.L.assocs)
+    (hlg : LgSpec fac.L nodes lg)
+    (h : MS.Inv s) (hv : MS.Valid fac.L s) (hdk : DefKeysDistinct s)
+    (ha : ScadAssetsOk fac.L (fun _ => true) s) (hfl : FloatsOk fac s) (hne : NoEmptyDefName fac.L s)
+    (hr : PairsResolve fac.L nodes s) (hfs : NoFirstSteps s) (hdot : StepsNoDot s)
+    (hfile : files.eom path = .ok (emitScad fac.L s))
+    (hfuel : s.assets.length + s.attackers.length ≤ env.whileFuel) :
+    ∃ m, securicad_load_model_from_scad_archive files env path lg fac = .ok (some m) ∧ MS.Inv (abs m) ∧
+      loadScadFrom fac.L nodes (fun _ => true) (abs (emptyModel path)) (emitScad fac.L s) = .ok (abs m) := by
+  obtain ⟨s', h1, hi, _⟩ := loadScad_emit_from fac.L nodes (fun _ => true) (abs (emptyModel path))
+    (emptyModel_abs_newModel {} path) s h hv ha hr hfs hdot
+  have hsim := scad_loader_refines files hE fac lg nodes (fun _ => true) path (emitScad fac.L s) hF hd hnodes hlg hfile
+    (emitScad_objWf fac (fun _ => true) s hdk ha hfl hne (fun _ _ => rfl))
+    (by rw [emitScad_objects_length]; exact hfuel)
+  rw [h1] at hsim
+  cases hl : securicad_load_model_from_scad_archive files env path lg fac with
+  | error e => rw [hl] at hsim; cases hsim
+  | ok r =>
+    cases r with
+    | none => rw [hl] at hsim; cases hsim
+    | some m =>
+      rw [hl] at hsim
+      have e : abs m = s' := by injection hsim
+      exact ⟨m, rfl, by rw [e]; exact hi, by rw [e]; exact h1⟩
+
+/-- the hypotheses about the native model `s` and its language under which the securiCAD archive can express it (each is
+forced by the format, see `Props/C18.lean`) and the native file loads back (C07) -/
+structure ScadExpressible (fac : Factory) (nodes : List AssocDecl) (s : MS.St) : Prop where
+  inv : MS.Inv s
+  valid : MS.Valid fac.L s
+  defKeys : DefKeysDistinct s
+  attIds : AttIdsDistinct s
+  attNames : AttNamesNonempty s
+  assetsOk : ScadAssetsOk fac.L (fun _ => true) s
+  floatsOk : FloatsOk fac s
+  noEmptyDef : NoEmptyDefName fac.L s
+  resolve : PairsResolve fac.L nodes s
+  noFirstSteps : NoFirstSteps s
+  noDot : StepsNoDot s
+
+/-- the transfer: whatever model the translated loader returns for the archive of `s`, and whatever model the native
+loader returns for the native file of `s`, they agree (`ScadAgrees`) -/
+theorem scad_loader_agrees (files : Files) {env : ModelEnv} (hE : EqId env) (fac : Factory) (lg : LangGraphView)
+    (nodes : List AssocDecl) (path : String) (s : MS.St)
+    (hF : FieldsDistinct fac.L) (hd : ClassNamesDistinct fac.L) (hnodes : ∀ a ∈ nodes, a ∈ fac.L.assocs)
+    (hlg : LgSpec fac.L nodes lg) (hs : ScadExpressible fac nodes s)
+    (hfile : files.eom path = .ok (emitScad fac.L s))
+    (hfuel : s.assets.length + s.attackers.length ≤ env.whileFuel)
+    (m : H) (hload : securicad_load_model_from_scad_archive files env path lg fac = .ok (some m))
+    (sn : MS.St) (hnat : fromDoc fac.L (fun _ => true) (toDoc fac.L s) = .ok sn) :
+    ScadAgrees fac.L (abs m) sn := by
+  obtain ⟨h, hv, hdk, hatt, hname, ha, hfl, hne, hr, hfs, hdot⟩ := hs
+  obtain ⟨s', h1, _, _, h3, h4, h5, h6⟩ := loadScad_emit_from fac.L nodes (fun _ => true) (abs (emptyModel path))
+    (emptyModel_abs_newModel {} path) s h hv ha hr hfs hdot
+  obtain ⟨m', hm', _, hm2⟩ := scad_loader_loads files hE fac lg nodes path s hF hd hnodes hlg h hv hdk ha hfl hne hr hfs
+    hdot hfile hfuel
+  rw [hload] at hm'
+  have em : m' = m := by injection hm' with e; injection e with e; exact e.symm
+  subst em
+  rw [h1] at hm2
+  have e : s' = abs m' := by injection hm2
+  subst e
+  obtain ⟨sn', hn1, hn2, _⟩ := C07.load_save_yaml_partial fac.L s h hv hatt (linksResolve_of_distinct hd hv) hdk hname
+  have hn1' : fromDoc fac.L (fun _ => true) (toDoc fac.L s) = .ok sn' := hn1
+  rw [hnat] at hn1'
+  have en : sn = sn' := by injection hn1'
+  subst en
+  exact scadAgrees_transfer fac.L s (abs m') sn hdk hn2 h3 h4 h5 h6
+
+/-- **C18, securiCAD: the assets.**  The model the translated loader returns for the archive of `s` has the assets of the
+model the native loader returns for the native file of `s`, in order: id, name, type, the value of every defense of the
+type (explicit or class default); extras cannot be expressed in the archive. -/
+theorem scad_loader_assets_agree (files : Files) {env : ModelEnv} (hE : EqId env) (fac : Factory) (lg : LangGraphView)
+    (nodes : List AssocDecl) (path : String) (s : MS.St)
+    (hF : FieldsDistinct fac.L) (hd : ClassNamesDistinct fac.L) (hnodes : ∀ a ∈ nodes, a ∈ fac.L.assocs)
+    (hlg : LgSpec fac.L nodes lg) (hs : ScadExpressible fac nodes s)
+    (hfile : files.eom path = .ok (emitScad fac.L s))
+    (hfuel : s.assets.length + s.attackers.length ≤ env.whileFuel)
+    (m : H) (hload : securicad_load_model_from_scad_archive files env path lg fac = .ok (some m))
+    (sn : MS.St) (hnat : fromDoc fac.L (fun _ => true) (toDoc fac.L s) = .ok sn) :
+    (abs m).assets.map (assetView fac.L (abs m)) =
+      sn.assets.map (fun a => { assetView fac.L sn a with extras := "{}" }) :=
+  (scad_loader_agrees files hE fac lg nodes path s hF hd hnodes hlg hs hfile hfuel m hload sn hnat).assets
+
+/-- **C18, securiCAD: the links.**  The associations of the model the translated loader returns are exactly the pairwise
+expansion of the links of the natively loaded model, in model order: for every link `l` and every `x ∈ left`, `y ∈ right`
+one binary association of the class of `l` with the members `[x]` / `[y]` (by id), and nothing else; no association
+occurs twice. -/
+theorem scad_loader_links_agree (files : Files) {env : ModelEnv} (hE : EqId env) (fac : Factory) (lg : LangGraphView)
+    (nodes : List AssocDecl) (path : String) (s : MS.St)
+    (hF : FieldsDistinct fac.L) (hd : ClassNamesDistinct fac.L) (hnodes : ∀ a ∈ nodes, a ∈ fac.L.assocs)
+    (hlg : LgSpec fac.L nodes lg) (hs : ScadExpressible fac nodes s)
+    (hfile : files.eom path = .ok (emitScad fac.L s))
+    (hfuel : s.assets.length + s.attackers.length ≤ env.whileFuel)
+    (m : H) (hload : securicad_load_model_from_scad_archive files env path lg fac = .ok (some m))
+    (sn : MS.St) (hnat : fromDoc fac.L (fun _ => true) (toDoc fac.L s) = .ok sn) :
+    (abs m).associations.map (assocView (abs m)) = pairViews (sn.associations.map (assocView sn)) ∧
+    (∀ v, v ∈ (abs m).associations.map (assocView (abs m)) ↔
+      ∃ l ∈ sn.associations, ∃ x ∈ (sn.lobj l).left, ∃ y ∈ (sn.lobj l).right,
+        v = ⟨(sn.lobj l).cls, (sn.lobj l).lf, [(sn.aobj x).id], (sn.lobj l).rf, [(sn.aobj y).id], "{}"⟩) ∧
+    ((abs m).associations.map (assocView (abs m))).Nodup := by
+  have hag := scad_loader_agrees files hE fac lg nodes path s hF hd hnodes hlg hs hfile hfuel m hload sn hnat
+  refine ⟨hag.links, ?_, ?_⟩
+  · intro v
+    rw [hag.links, mem_pairViews]
+    constructor
+    · rintro ⟨w, hw, i, hi, j, hj, rfl⟩
+      obtain ⟨l, hl, rfl⟩ := List.mem_map.1 hw
+      obtain ⟨x, hx, rfl⟩ := List.mem_map.1 (show i ∈ (sn.lobj l).left.map (fun a => (sn.aobj a).id) from hi)
+      obtain ⟨y, hy, rfl⟩ := List.mem_map.1 (show j ∈ (sn.lobj l).right.map (fun a => (sn.aobj a).id) from hj)
+      exact ⟨l, hl, x, hx, y, hy, rfl⟩
+    · rintro ⟨l, hl, x, hx, y, hy, rfl⟩
+      exact ⟨assocView sn l, List.mem_map.2 ⟨l, hl, rfl⟩, _,
+        (show (sn.aobj x).id ∈ (sn.lobj l).left.map (fun a => (sn.aobj a).id) from List.mem_map.2 ⟨x, hx, rfl⟩), _,
+        (show (sn.aobj y).id ∈ (sn.lobj l).right.map (fun a => (sn.aobj a).id) from List.mem_map.2 ⟨y, hy, rfl⟩), rfl⟩
+  · obtain ⟨m', _, _, hm2⟩ := scad_loader_loads files hE fac lg nodes path s hF hd hnodes hlg hs.inv hs.valid hs.defKeys
+      hs.assetsOk hs.floatsOk hs.noEmptyDef hs.resolve hs.noFirstSteps hs.noDot hfile hfuel
+    obtain ⟨s', h1, _, _, _, h4, _⟩ := loadScad_emit_from fac.L nodes (fun _ => true) (abs (emptyModel path))
+      (emptyModel_abs_newModel {} path) s hs.inv hs.valid hs.assetsOk hs.resolve hs.noFirstSteps hs.noDot
+    have hpk := C18.link_pairs_distinct fac.L s hs.inv hs.valid
+    have h4' : (abs m).associations.map (assocView (abs m)) = (pairsOf s).map Pair.view := by
+      obtain ⟨m'', hm'', _, hm2'⟩ := scad_loader_loads files hE fac lg nodes path s hF hd hnodes hlg hs.inv hs.valid
+        hs.defKeys hs.assetsOk hs.floatsOk hs.noEmptyDef hs.resolve hs.noFirstSteps hs.noDot hfile hfuel
+      rw [hload] at hm''
+      have em : m'' = m := by injection hm'' with e; injection e with e; exact e.symm
+      subst em
+      rw [h1] at hm2'
+      have e : s' = abs m'' := by injection hm2'
+      rw [← e]; exact h4
+    rw [h4']
+    apply MS.nodup_of_map (fun v : AssocView => (v.cls, v.left, v.right))
+    rw [List.map_map]
+    have : ((fun v : AssocView => (v.cls, v.left, v.right)) ∘ Pair.view) =
+        (fun k : String × Int × Int => (k.1, [k.2.1], [k.2.2])) ∘ Pair.key := rfl
+    rw [this, ← List.map_map]
+    apply MS.nodup_map_of_inj _ _ hpk
+    intro a _ b _ e
+    simp only [Prod.mk.injEq, List.cons.injEq, and_true] at e
+    exact Prod.ext e.1 (Prod.ext e.2.1 e.2.2)
+
+/-- **C18, securiCAD: the attacker entry points.**  The attackers come back with their ids (named `Attacker:<id>`: the
+archive does not carry attacker names); the set of (attacker id, asset id, attack step) entry points is that of the
+natively loaded model; every attacker has ONE tuple per asset (`add_entry_point` merges the steps of an asset). -/
+theorem scad_loader_entry_points_agree (files : Files) {env : ModelEnv} (hE : EqId env) (fac : Factory)
+    (lg : LangGraphView) (nodes : List AssocDecl) (path : String) (s : MS.St)
+    (hF : FieldsDistinct fac.L) (hd : ClassNamesDistinct fac.L) (hnodes : ∀ a ∈ nodes, a ∈ fac.L.assocs)
+    (hlg : LgSpec fac.L nodes lg) (hs : ScadExpressible fac nodes s)
+    (hfile : files.eom path = .ok (emitScad fac.L s))
+    (hfuel : s.assets.length + s.attackers.length ≤ env.whileFuel)
+    (m : H) (hload : securicad_load_model_from_scad_archive files env path lg fac = .ok (some m))
+    (sn : MS.St) (hnat : fromDoc fac.L (fun _ => true) (toDoc fac.L s) = .ok sn) :
+    (abs m).attackers.map (fun t => (((abs m).tobj t).id, ((abs m).tobj t).name)) =
+      sn.attackers.map (fun t => ((sn.tobj t).id, "Attacker:" ++ toString (sn.tobj t).id)) ∧
+    (∀ tid aid st, EntryRel (abs m) tid aid st ↔ EntryRel sn tid aid st) ∧
+    (∀ t ∈ (abs m).attackers, (((abs m).tobj t).entry.map (fun ep => ((abs m).aobj ep.1).id)).Nodup) := by
+  have hag := scad_loader_agrees files hE fac lg nodes path s hF hd hnodes hlg hs hfile hfuel m hload sn hnat
+  obtain ⟨m', hm', hi, _⟩ := scad_loader_loads files hE fac lg nodes path s hF hd hnodes hlg hs.inv hs.valid hs.defKeys
+    hs.assetsOk hs.floatsOk hs.noEmptyDef hs.resolve hs.noFirstSteps hs.noDot hfile hfuel
+  rw [hload] at hm'
+  have em : m' = m := by injection hm' with e; injection e with e; exact e.symm
+  subst em
+  exact ⟨hag.attackers, hag.entry_points, fun t ht => entry_ids_nodup hi ht⟩
+
+/-- **C18, securiCAD.**  For every native model state `s` that the archive can express (`ScadExpressible`: coherent,
+valid, and the conditions the format forces): the translated `load_model_from_scad_archive` on the archive `emitScad s`
+returns a model, the native loader on the native file `toDoc s` returns a model, and the two have the same assets (ids,
+names, types, defense values), the same pairwise links and the same attacker entry points. -/
+theorem scad_loader_agrees_with_native (files : Files) {env : ModelEnv} (hE : EqId env) (fac : Factory)
+    (lg : LangGraphView) (nodes : List AssocDecl) (path : String) (s : MS.St)
+    (hF : FieldsDistinct fac.L) (hd : ClassNamesDistinct fac.L) (hnodes : ∀ a ∈ nodes, a ∈ fac.L.assocs)
+    (hlg : LgSpec fac.L nodes lg) (hs : ScadExpressible fac nodes s)
+    (hfile : files.eom path = .ok (emitScad fac.L s))
+    (hfuel : s.assets.length + s.attackers.length ≤ env.whileFuel) :
+    ∃ m sn, securicad_load_model_from_scad_archive files env path lg fac = .ok (some m) ∧
+      fromDoc fac.L (fun _ => true) (toDoc fac.L s) = .ok sn ∧ MS.Inv (abs m) ∧ ScadAgrees fac.L (abs m) sn := by
+  obtain ⟨m, hm, hi, _⟩ := scad_loader_loads files hE fac lg nodes path s hF hd hnodes hlg hs.inv hs.valid hs.defKeys
+    hs.assetsOk hs.floatsOk hs.noEmptyDef hs.resolve hs.noFirstSteps hs.noDot hfile hfuel
+  obtain ⟨sn, hn1, _, _⟩ := C07.load_save_yaml_partial fac.L s hs.inv hs.valid hs.attIds
+    (linksResolve_of_distinct hd hs.valid) hs.defKeys hs.attNames
+  exact ⟨m, sn, hm, hn1, hi,
+    scad_loader_agrees files hE fac lg nodes path s hF hd hnodes hlg hs hfile hfuel m hm sn hn1⟩
+
+/-- **C18, securiCAD, after any history.**  For the state reached by any sequence of model operations from the empty model
+(coherent and valid by C05 / C06; `add_asset` given no defense twice), what remains to be assumed is what the format forces:
+distinct attacker ids, `ScadAssetsOk`, values in range, no defense / field / step name the format cannot write, and a
+language whose (unordered) field-name pairs identify the declaration. -/
+theorem scad_loader_agrees_with_native_reachable (files : Files) {env : ModelEnv} (hE : EqId env) (fac : Factory)
+    (lg : LangGraphView) (nodes : List AssocDecl) (path : String) (ops : List MS.Op)
+    (hF : FieldsDistinct fac.L) (hd : ClassNamesDistinct fac.L) (hnodes : ∀ a ∈ nodes, a ∈ fac.L.assocs)
+    (hfi : FieldsIdentify fac.L nodes) (hlg : LgSpec fac.L nodes lg)
+    (hops : ∀ op ∈ ops, OpDefKeysDistinct op) (hatt : AttIdsDistinct (ops.foldl (MS.applyOp fac.L) {}))
+    (ha : ScadAssetsOk fac.L (fun _ => true) (ops.foldl (MS.applyOp fac.L) {}))
+    (hfl : FloatsOk fac (ops.foldl (MS.applyOp fac.L) {})) (hne : NoEmptyDefName fac.L (ops.foldl (MS.applyOp fac.L) {}))
+    (hfs : NoFirstSteps (ops.foldl (MS.applyOp fac.L) {})) (hdot : StepsNoDot (ops.foldl (MS.applyOp fac.L) {}))
+    (hfile : files.eom path = .ok (emitScad fac.L (ops.foldl (MS.applyOp fac.L) {})))
+    (hfuel : (ops.foldl (MS.applyOp fac.L) {}).assets.length + (ops.foldl (MS.applyOp fac.L) {}).attackers.length
+      ≤ env.whileFuel) :
+    ∃ m sn, securicad_load_model_from_scad_archive files env path lg fac = .ok (some m) ∧
+      fromDoc fac.L (fun _ => true) (toDoc fac.L (ops.foldl (MS.applyOp fac.L) {})) = .ok sn ∧ MS.Inv (abs m) ∧
+      ScadAgrees fac.L (abs m) sn :=
+  scad_loader_agrees_with_native files hE fac lg nodes path _ hF hd hnodes hlg
+    ⟨C05.reachable_inv _ _, C06.reachable_valid _ _, C07.reachable_defKeysDistinct _ _ hops, hatt,
+     C07.reachable_attNamesNonempty _ _, ha, hfl, hne,
+     C18.pairs_resolve_of_fields _ _ _ hd hfi (C06.reachable_valid _ _) (C05.reachable_inv _ _), hfs, hdot⟩ hfile hfuel
+
+/-! ### securiCAD: non-vacuity, and the hypothesis `NoEmptyDefName` is needed -/
+
+/-- `Legacy.Sample.st` (ids 5, −3, 0; a non-default defense; a link with two left members and a self-link; an attacker with
+two steps on one asset and one on another) is expressible -/
+theorem demo_scadExpressible : ScadExpressible demoFac Legacy.Sample.lang.assocs Legacy.Sample.st :=
+  ⟨C05.reachable_inv _ _, C06.reachable_valid _ _, by decide, by decide, by decide, ⟨by decide, by decide, by decide⟩,
+   by decide, by decide,
+   C18.pairs_resolve_of_fields _ _ _ (by decide) ⟨by decide, by decide⟩ (C06.reachable_valid _ _) (C05.reachable_inv _ _),
+   by decide, by decide⟩
+
+/-- the hypotheses of `scad_loader_agrees_with_native` hold for it, so its conclusion does -/
+example : ∃ m sn, securicad_load_model_from_scad_archive demoScadFiles demoEnv "m.sCAD"
+      (demoLg Legacy.Sample.lang Legacy.Sample.lang.assocs) demoFac = .ok (some m) ∧
+    fromDoc Legacy.Sample.lang (fun _ => true) (toDoc Legacy.Sample.lang Legacy.Sample.st) = .ok sn ∧ MS.Inv (abs m) ∧
+    ScadAgrees Legacy.Sample.lang (abs m) sn :=
+  scad_loader_agrees_with_native demoScadFiles demoEnv_eqId demoFac (demoLg demoFac.L Legacy.Sample.lang.assocs)
+    Legacy.Sample.lang.assocs "m.sCAD" Legacy.Sample.st demo_fieldsDistinct (by decide) (fun _ ha => ha)
+    (fun _ _ _ _ => rfl) demo_scadExpressible rfl (by decide +kernel)
+
+/-- the state with one asset of the class `C` (`cexLang`: its only defense is called `""`) that sets this defense -/
+def cexSt : MS.St := [MS.Op.addAsset "C" (some "x") [("", "1.0")] true "{}" (some 1) true].foldl (MS.applyOp cexLang) {}
+def cexFiles : Files :=
+  { json := fun _ => .error .unmodelled, yaml := fun _ => .error .unmodelled, eom := fun _ => .ok (emitScad cexLang cexSt) }
+
+/-- **`NoEmptyDefName` is needed** (so `ObjWf` does NOT follow from `Inv` + `Valid` alone): a coherent, valid model that
+satisfies every other hypothesis, whose native file loads, and on whose archive the translated loader raises
+`IndexError` (`defense_name[0]` on the evidence attribute `""`). -/
+theorem scad_emit_empty_defense_counterexample :
+    MS.Inv cexSt ∧ MS.Valid cexLang cexSt ∧ DefKeysDistinct cexSt ∧ AttIdsDistinct cexSt ∧ AttNamesNonempty cexSt ∧
+    ScadAssetsOk cexLang (fun _ => true) cexSt ∧ FloatsOk cexFac cexSt ∧ PairsResolve cexLang [] cexSt ∧
+    NoFirstSteps cexSt ∧ StepsNoDot cexSt ∧ ¬ NoEmptyDefName cexLang cexSt ∧
+    (∃ o ∈ (emitScad cexLang cexSt).objects, ¬ ObjWf cexFac (fun _ => true) o) ∧
+    (∃ sn, fromDoc cexLang (fun _ => true) (toDoc cexLang cexSt) = .ok sn) ∧
+    securicad_load_model_from_scad_archive cexFiles cexEnv "x.sCAD" (demoLg cexLang []) cexFac = .error (.py .other) := by
+  refine ⟨C05.reachable_inv _ _, C06.reachable_valid _ _, by decide, by decide, by decide,
+    ⟨by decide, by decide, by decide⟩, by decide, ?_, by decide, by decide, by decide, ?_, ?_,
+    raisesO_eq (by decide +kernel)⟩
+  · intro l hl
+    have he : cexSt.associations = [] := by decide
+    rw [he] at hl; exact absurd hl List.not_mem_nil
+  · refine ⟨cexObj, by decide, fun h => ?_⟩
+    have := h.noEmpty ("", "1.0") (by decide) rfl
+    revert this; decide
+  · exact (loadsTo_iff _ _).1 (show LoadsTo (fromDoc cexLang (fun _ => true) (toDoc cexLang cexSt)) (fun _ => True) from by
+      decide +kernel) |>.imp (fun _ h => h.1)
+
+/-! ### the image conditions hold for everything written for a coherent model -/
+
+/-- **`OldWf` / `DefsOkOf` / `NoExtras` are not extra assumptions on saved models.**  For a coherent, valid state `s` without
+extras: the native file of `s` — as `save_to_file` writes it (`toDoc`, int keys) and as `json.load` returns it (`jsonRT`,
+string keys: what the harness rewrites) — put into the 0.0.39 layout (`emitOld`, nested or flat) satisfies the
+hypotheses of `old_loader_agrees_with_native`. -/
+theorem old_wf_of_saved_model (fac : Factory) (nested : Bool) (s : MS.St) (h : MS.Inv s) (hF : FieldsDistinct fac.L)
+    (hres : LinksResolve fac.L s) (hdk : DefKeysDistinct s) (hatt : AttIdsDistinct s) (hx : StNoExtras s)
+    (hfl : FloatsOk fac s) (hflat : nested = false → FlatFieldsOk s) :
+    (NoExtras (toDoc fac.L s) ∧ OldWf fac.L nested (emitOld (toDoc fac.L s)) ∧
+      DefsOkOf fac (emitOld (toDoc fac.L s)) (fun _ => true)) ∧
+    (NoExtras (jsonRT (toDoc fac.L s)) ∧ OldWf fac.L nested (emitOld (jsonRT (toDoc fac.L s))) ∧
+      DefsOkOf fac (emitOld (jsonRT (toDoc fac.L s))) (fun _ => true)) :=
+  ⟨⟨(C18.toDoc_noExtras fac.L s h hx).1, emitOld_toDoc_wf fac.L nested s h hF hres hdk hatt hflat,
+    (defsOkOf_emitOld_toDoc fac s h hfl).1⟩,
+   ⟨(C18.toDoc_noExtras fac.L s h hx).2, emitOld_jsonRT_toDoc_wf fac.L nested s h hF hres hdk hatt hflat,
+    (defsOkOf_emitOld_toDoc fac s h hfl).2⟩⟩
+
+/-- **`ObjWf` is not an extra assumption on saved models** beyond `NoEmptyDefName` (needed:
+`scad_emit_empty_defense_counterexample`) and the range check: every object of the archive written for `s` is
+well-formed.  (`objWf_of_capped`, `TieLegacyWf.lean`, is the general form: any object whose evidence attributes are the
+capitalised names of a duplicate-free defense list — also the harness's rendering, which writes every defense.) -/
+theorem scad_objWf_of_saved_model (fac : Factory) (s : MS.St) (hdk : DefKeysDistinct s)
+    (ha : ScadAssetsOk fac.L (fun _ => true) s) (hfl : FloatsOk fac s) (hne : NoEmptyDefName fac.L s) :
+    ∀ o ∈ (emitScad fac.L s).objects, ObjWf fac (fun _ => true) o :=
+  emitScad_objWf fac (fun _ => true) s hdk ha hfl hne (fun _ _ => rfl)
+
+/-- **C18, 0.0.39 layout, on saved models.**  For every coherent, valid native model state `s` without extras (hypotheses
+of C07 `load_save_json_partial`): the translated 0.0.39 loader on the 0.0.39 rewriting of the native JSON file of `s`
+returns a model, the native loader on that file returns a model, and the two show the same assets (id, name, type, every
+defense value, extras), associations and attackers (`SameModel`).  No well-formedness assumption on the document is left. -/
+theorem old_loader_agrees_on_saved_model {env : ModelEnv} (hE : EqId env) (files : Files) (fac : Factory)
+    (hF : FieldsDistinct fac.L) (nested : Bool) (name : String) (s : MS.St) (h : MS.Inv s) (hv : MS.Valid fac.L s)
+    (hres : LinksResolve fac.L s) (hdk : DefKeysDistinct s) (hatt : AttIdsDistinct s) (hname : AttNamesNonempty s)
+    (hx : StNoExtras s) (hfl : FloatsOk fac s) (hflat : nested = false → FlatFieldsOk s)
+    (hfuel : s.assets.length ≤ env.whileFuel) :
+    ∃ m sn, updater_process_model files env (encOld nested name (emitOld (jsonRT (toDoc fac.L s)))) fac = .ok m ∧
+      fromDoc fac.L (fun _ => true) (jsonRT (toDoc fac.L s)) = .ok sn ∧ SameModel fac.L (abs m) sn := by
+  obtain ⟨_, hnx, hwf, hdefs⟩ := old_wf_of_saved_model fac nested s h hF hres hdk hatt hx hfl hflat
+  have hlen : (jsonRT (toDoc fac.L s)).assets.length ≤ env.whileFuel := by
+    show ((toDoc fac.L s).assets.map _).length ≤ _
+    rw [List.length_map, toDoc_assets fac.L s h, List.length_map]; exact hfuel
+  have htie := old_loader_agrees_with_native hE files fac hF (fun _ => true) nested name (jsonRT (toDoc fac.L s)) hnx hwf
+    hdefs hlen
+  obtain ⟨s1, hs1, _, _, hsm1, _⟩ := load_toDoc_from fac.L (abs (emptyModel name)) (emptyModel_abs_newModel {} name) s h hv
+    hres hdk hatt hname
+  have hs1' : PyLeg.fromDocFrom fac.L (fun _ => true) (abs (emptyModel name)) (jsonRT (toDoc fac.L s)) = .ok s1 := by
+    show PyM.fromDocFrom fac.L (fun _ => true) (abs (emptyModel name)) (jsonRT (toDoc fac.L s)) = .ok s1
+    rw [fromDocFrom_jsonRT]; exact hs1
+  rw [hs1'] at htie
+  obtain ⟨sn, hn1, hn2, _⟩ := C07.load_save_json_partial fac.L s h hv hatt hres hdk hname
+  cases hm : updater_process_model files env (encOld nested name (emitOld (jsonRT (toDoc fac.L s)))) fac with
+  | error e => rw [hm] at htie; cases htie
+  | ok m =>
+    rw [hm] at htie
+    have e : abs m = s1 := by injection htie
+    exact ⟨m, sn, rfl, hn1, by rw [e]; exact hsm1.trans hn2.symm⟩
+
+/-- … and on the native YAML file (int keys, `toDoc` as `save_to_file` writes it) -/
+theorem old_loader_agrees_on_saved_model_yaml {env : ModelEnv} (hE : EqId env) (files : Files) (fac : Factory)
+    (hF : FieldsDistinct fac.L) (nested : Bool) (name : String) (s : MS.St) (h : MS.Inv s) (hv : MS.Valid fac.L s)
+    (hres : LinksResolve fac.L s) (hdk : DefKeysDistinct s) (hatt : AttIdsDistinct s) (hname : AttNamesNonempty s)
+    (hx : StNoExtras s) (hfl : FloatsOk fac s) (hflat : nested = false → FlatFieldsOk s)
+    (hfuel : s.assets.length ≤ env.whileFuel) :
+    ∃ m sn, updater_process_model files env (encOld nested name (emitOld (toDoc fac.L s))) fac = .ok m ∧
+      fromDoc fac.L (fun _ => true) (toDoc fac.L s) = .ok sn ∧ SameModel fac.L (abs m) sn := by
+  obtain ⟨⟨hnx, hwf, hdefs⟩, _⟩ := old_wf_of_saved_model fac nested s h hF hres hdk hatt hx hfl hflat
+  have hlen : (toDoc fac.L s).assets.length ≤ env.whileFuel := by
+    rw [toDoc_assets fac.L s h, List.length_map]; exact hfuel
+  have htie := old_loader_agrees_with_native hE files fac hF (fun _ => true) nested name (toDoc fac.L s) hnx hwf
+    hdefs hlen
+  obtain ⟨s1, hs1, _, _, hsm1, _⟩ := load_toDoc_from fac.L (abs (emptyModel name)) (emptyModel_abs_newModel {} name) s h hv
+    hres hdk hatt hname
+  have hs1' : PyLeg.fromDocFrom fac.L (fun _ => true) (abs (emptyModel name)) (toDoc fac.L s) = .ok s1 := hs1
+  rw [hs1'] at htie
+  obtain ⟨sn, hn1, hn2, _⟩ := C07.load_save_yaml_partial fac.L s h hv hatt hres hdk hname
+  cases hm : updater_process_model files env (encOld nested name (emitOld (toDoc fac.L s))) fac with
+  | error e => rw [hm] at htie; cases htie
+  | ok m =>
+    rw [hm] at htie
+    have e : abs m = s1 := by injection htie
+    exact ⟨m, sn, rfl, hn1, by rw [e]; exact hsm1.trans hn2.symm⟩
 
 end MalVerif.PropsGen.C18
